@@ -3,7 +3,7 @@ import ast
 
 from ..core import AnalysisError, dotted, call_name, src, walk_local
 from ..flow import leaves, linear, Lin
-from ..rules import (flow_of, state_writes, facts_at, calls_in, bind_args, canon, lin, is_lin, cmp_norm, collect_list,
+from ..rules import (inline_helpers, flow_of, state_writes, facts_at, calls_in, bind_args, canon, lin, is_lin, cmp_norm, collect_list,
                      who_writes, who_calls, elem_symbols)
 from ..units import check_units
 from ..tables import UNITS
@@ -276,7 +276,33 @@ def rule_recording(ck, rid="C02.R7"):
         ck.require(fl.cfg.exit not in fl.cfg.reach(fl.cfg.entry, avoid={n}), rid, f, n.stmt, ok="peak updated every period", bad="a path skips the peak update", sink="peak-every-path")
 
 
+def rule_record_before_hook(ck, rid="C02.R7h"):
+    """the rates of a period are recorded right after the pilots were applied: nothing that can change which EV is connected
+    (the network's post-charging hook, event processing, plug/unplug) runs between update_pilots and the recording."""
+    repo = ck.repo
+    for q in ("Simulator.run", "Simulator.step"):
+        f = inline_helpers(repo, repo.fn(q))
+        fl = flow_of(f)
+        cfg = fl.cfg
+        ups = [n for n, c in calls_in(fl, "update_pilots")]
+        recs = [n for n, c in calls_in(fl, "_store_actual_charging_rates")]
+        ck.require(len(ups) == 1 and len(recs) == 1, rid, f, "update_pilots / _store_actual_charging_rates", bad=f"{len(ups)} update_pilots and {len(recs)} recording calls in {q}",
+                   sink=f"{f.name}:counts")
+        if len(ups) != 1 or len(recs) != 1:
+            continue
+        u, r = ups[0], recs[0]
+        between = cfg.reach(u, avoid={r}) & {n for n in cfg.nodes if r in cfg.reach(n)}
+        bad = []
+        for n, c in calls_in(fl):
+            if n in between and n is not u and call_name(c) in ("post_charging_update", "_process_event", "plugin", "unplug", "get_current_events", "run", "_update_schedules"):
+                bad.append(c)
+        ck.require(cfg.dominates(u, r) and not bad, rid, f, bad[0] if bad else "record after pilots", ok="recorded immediately after the pilots were applied",
+                   bad=f"`{src(bad[0], 50) if bad else 'recording'}` runs between applying the pilots and recording the rates: an EV removed there has its last "
+                       f"period recorded as 0 A although it received energy", sink=f"{f.name}:between")
+
+
 def run(ck):
+    rule_record_before_hook(ck)
     rule_units(ck)
     rule_same_value(ck)
     rule_single_writers(ck)
